@@ -6,7 +6,7 @@
   refmt's `Decoder.Step`/`stepHelper_acceptValue` under `refmtDecodeOptions` fused with
   `unmarshal1/unmarshal2` (budget and depth accounting in the same order as the code).
 -/
-import IpldModel.Model.DM
+import IpldModel.Model.Base
 namespace Ipld
 namespace Cbor
 
@@ -56,49 +56,6 @@ def sortPairs {α : Type} (mode : SortMode) (es : List (Bytes × α)) : List (By
   match mode with
   | .none => es
   | m => es.mergeSort (fun a b => keyLE m a.1 b.1)
-
-/-! ## CID grammar (go-cid `Cast`, go-multihash, go-varint) -/
-
-/-- go-varint `FromUvarint`: at most 9 bytes, the ninth below 0x80, minimal. Returns value and rest. -/
-def uvarintAux : Nat → Nat → Nat → Bytes → Option (Nat × Bytes)
-  | _, _, _, [] => none
-  | i, x, s, b :: bs =>
-    if (i == 8 && b.toNat ≥ 128) || i ≥ 9 then none
-    else if b.toNat < 128 then
-      if b.toNat == 0 && s > 0 then none else some (x + b.toNat * 2 ^ s, bs)
-    else uvarintAux (i + 1) (x + (b.toNat % 128) * 2 ^ s) (s + 7) bs
-
-def uvarint (bs : Bytes) : Option (Nat × Bytes) := uvarintAux 0 0 0 bs
-
-/-- `multihash` grammar: code varint, length varint (≤ 2^31-1), exactly that many digest bytes,
-    and the buffer holds at least 2 bytes.  Returns the rest after the multihash. -/
-def multihashPrefix (bs : Bytes) : Option Bytes :=
-  if bs.length < 2 then none else
-  match uvarint bs with
-  | none => none
-  | some (_, r1) =>
-    match uvarint r1 with
-    | none => none
-    | some (len, r2) =>
-      if len > 2147483647 then none
-      else if len > r2.length then none
-      else some (r2.drop len)
-
-/-- `cid.Cast` accepts exactly these byte strings. -/
-def cidValid (bs : Bytes) : Bool :=
-  match bs with
-  | 0x12 :: 0x20 :: _ :: _ => bs.length == 34
-  | _ =>
-    match uvarint bs with
-    | none => false
-    | some (vers, r1) =>
-      if vers != 1 then false else
-      match uvarint r1 with
-      | none => false
-      | some (_, r2) =>
-        match multihashPrefix r2 with
-        | some [] => true
-        | _ => false
 
 /-! ## Encoder -/
 
@@ -218,6 +175,10 @@ structure DecCfg where
   budget : Int := 10485760
   maxPrealloc : Nat := 1024
   maxDepth : Nat := 1024
+  /-- refmt `decodeNegInt` computes `ui + 1` in uint64, so the argument 2^64-1 wraps to 0 and the item
+      `3b ff…ff` (−2^64) is accepted as the integer 0 (known finding K1, in a dependency).  `true`
+      mirrors the code; `false` is the model with that one deviation removed. -/
+  negWrap : Bool := true
   deriving Repr
 
 def dagcborDec : DecCfg := {}
@@ -253,33 +214,6 @@ def readLen (strict : Bool) (info : Nat) (bs : Bytes) : R (Nat × Bytes) := do
   let (n, r) ← readArg strict info bs
   if n > 9223372036854775807 then .error .lenOverflow else .ok (n, r)
 
-/-! ### Float widening on bit patterns -/
-
-def highBit : Nat → Nat → Nat   -- index of the highest set bit among the low `w` bits (0 if none)
-  | 0, _ => 0
-  | w + 1, m => if m / 2 ^ w % 2 = 1 then w else highBit w m
-
-/-- Widen a narrow float given sign, exponent field, mantissa field, their widths and bias, to f64 bits. -/
-def widen (ebits mbits : Nat) (s e m : Nat) : Nat :=
-  let bias := 2 ^ (ebits - 1) - 1
-  let emax := 2 ^ ebits - 1
-  if e = 0 then
-    if m = 0 then s * 2 ^ 63
-    else
-      let p := highBit mbits m
-      -- value = m * 2^(1 - bias - mbits) = 2^(p + 1 - bias - mbits) * (1 + frac)
-      s * 2 ^ 63 + (p + 1 + 1023 - bias - mbits) * 2 ^ 52 + (m - 2 ^ p) * 2 ^ (52 - p)
-  else if e = emax then
-    if m = 0 then s * 2 ^ 63 + 2047 * 2 ^ 52
-    else s * 2 ^ 63 + 2047 * 2 ^ 52 + 2 ^ 51 + m * 2 ^ (52 - mbits) % 2 ^ 51  -- quiet NaN, payload kept
-  else s * 2 ^ 63 + (e + 1023 - bias) * 2 ^ 52 + m * 2 ^ (52 - mbits)
-
-def f16to64 (h : Nat) : Nat := widen 5 10 (h / 32768) (h / 1024 % 32) (h % 1024)
-def f32to64 (w : Nat) : Nat := widen 8 23 (w / 2147483648) (w / 8388608 % 256) (w % 8388608)
-
-def f64IsNaN (b : Nat) : Bool := b / 2 ^ 52 % 2048 = 2047 && b % 2 ^ 52 ≠ 0
-def f64IsInf (b : Nat) : Bool := b / 2 ^ 52 % 2048 = 2047 && b % 2 ^ 52 = 0
-
 def checkFloat (strict : Bool) (b : Nat) : R DM :=
   if strict && f64IsNaN b then .error .nan
   else if strict && f64IsInf b then .error .inf
@@ -304,12 +238,47 @@ def finish (tag : Option Nat) (extra cost : Int) (v : DM) (s : DS) : R (DM × DS
     let s2 ← charge s1 cost
     pure (v, s2)
 
+/-- `n` list elements, each read by `item` (the element decoder of the enclosing `decItem`). -/
+def decList (item : DS → R (DM × DS)) : Nat → DS → R (List DM × DS)
+  | 0, s => .ok ([], s)
+  | n + 1, s => do
+    let (x, s1) ← item s
+    let (xs, s2) ← decList item n s1
+    pure (x :: xs, s2)
+
+/-- A map key: an untagged definite-length text string; everything else is rejected
+    (the tokenizer accepts any item here, `unmarshal2` insists on a string). -/
+def decKey (cfg : DecCfg) (s : DS) : R (Bytes × DS) :=
+  let strict := !cfg.relaxed
+  match s.rest with
+  | [] => .error .eof
+  | b0 :: rest =>
+    let b := b0.toNat
+    if b = 0x7f ∨ b = 0x5f ∨ b = 0x9f ∨ b = 0xbf then .error .indefinite
+    else if b / 32 = 3 then do
+      let (n, r) ← readLen strict (b % 32) rest
+      if n > 33554432 then .error .oversized else
+      let (payload, r') ← take? n r
+      pure (payload, { s with rest := r' })
+    else .error .badKey
+
+/-- `n` map entries; `seen` is the decoder's duplicate set (in relaxed mode the assembler's). -/
+def decMap (cfg : DecCfg) (item : DS → R (DM × DS)) : Nat → List Bytes → DS → R (List (Bytes × DM) × DS)
+  | 0, _, s => .ok ([], s)
+  | n + 1, seen, s => do
+    let (k, s1) ← decKey cfg s
+    let s2 ← charge s1 (k.length + 8)
+    if seen.contains k then .error .dupKey else
+    let (v, s3) ← item s2
+    let (es, s4) ← decMap cfg item n (k :: seen) s3
+    pure ((k, v) :: es, s4)
+
 /--
   One item.  `tag` is the tag already slurped for this item (refmt reads a single tag and then the
   item itself inside the same `Step`).  `extra` is the per-element charge `unmarshal2` makes for a
   list entry *after* the tokenizer produced the element's first token and *before* the element is
-  processed.  `fuel` bounds recursion; `fuel = input length + 1` suffices because every recursive
-  call is made after consuming at least one byte.
+  processed.  `fuel` bounds the nesting of recursive calls; `fuel = input length + 1` suffices
+  because every nested call is made after consuming at least one byte.
 -/
 def decItem (cfg : DecCfg) : Nat → Nat → Int → Option Nat → DS → R (DM × DS)
   | 0, _, _, _, _ => .error .eof
@@ -343,7 +312,7 @@ def decItem (cfg : DecCfg) : Nat → Nat → Int → Option Nat → DS → R (DM
       else if major = 1 then do
         let (n, r) ← readArg strict info rest
         -- refmt decodeNegInt: pos := ui + 1 (wrapping at 2^64); reject pos > 2^63
-        let pos := (n + 1) % 18446744073709551616
+        let pos := if cfg.negWrap then (n + 1) % 18446744073709551616 else n + 1
         if pos > 9223372036854775808 then .error .negOverflow else
         finish tag extra 1 (.int (-(pos : Int))) { s with rest := r }
       else if major = 2 then do
@@ -373,7 +342,7 @@ def decItem (cfg : DecCfg) : Nat → Nat → Int → Option Nat → DS → R (DM
         | none =>
         if depth ≥ cfg.maxDepth then .error .depth else
         let s1 ← charge s0 n
-        let (xs, s2) ← decList cfg fuel (depth + 1) n s1
+        let (xs, s2) ← decList (decItem cfg fuel (depth + 1) 4 none) n s1
         pure (.list (DMs.ofList xs), s2)
       else if major = 5 then do
         let (n, r) ← readLen strict info rest
@@ -383,7 +352,7 @@ def decItem (cfg : DecCfg) : Nat → Nat → Int → Option Nat → DS → R (DM
         | none =>
         if depth ≥ cfg.maxDepth then .error .depth else
         let s1 ← charge s0 n
-        let (es, s2) ← decMap cfg fuel (depth + 1) n [] s1
+        let (es, s2) ← decMap cfg (decItem cfg fuel (depth + 1) 0 none) n [] s1
         pure (.map (DMKVs.ofList es), s2)
       else if major = 6 then
         match tag with
@@ -392,39 +361,6 @@ def decItem (cfg : DecCfg) : Nat → Nat → Int → Option Nat → DS → R (DM
           let (t, r) ← readLen strict info rest
           decItem cfg fuel depth extra (some t) { s with rest := r }
       else .error .badInfo
-where
-  decList (cfg : DecCfg) : Nat → Nat → Nat → DS → R (List DM × DS)
-    | 0, _, _, _ => .error .eof
-    | _, _, 0, s => .ok ([], s)
-    | fuel + 1, depth, n + 1, s => do
-      let (x, s1) ← decItem cfg fuel depth 4 none s
-      let (xs, s2) ← decList cfg fuel depth n s1
-      pure (x :: xs, s2)
-  decMap (cfg : DecCfg) : Nat → Nat → Nat → List Bytes → DS → R (List (Bytes × DM) × DS)
-    | 0, _, _, _, _ => .error .eof
-    | _, _, 0, _, s => .ok ([], s)
-    | fuel + 1, depth, n + 1, seen, s => do
-      -- the key: the tokenizer accepts any item here, `unmarshal2` insists on an (untagged) string
-      let (k, s1) ← decKey cfg s
-      let s2 ← charge s1 (k.length + 8)
-      if seen.contains k then .error .dupKey else
-      let (v, s3) ← decItem cfg fuel depth 0 none s2
-      let (es, s4) ← decMap cfg fuel depth n (k :: seen) s3
-      pure ((k, v) :: es, s4)
-  /-- A map key: an untagged definite-length text string; everything else is rejected. -/
-  decKey (cfg : DecCfg) (s : DS) : R (Bytes × DS) :=
-    let strict := !cfg.relaxed
-    match s.rest with
-    | [] => .error .eof
-    | b0 :: rest =>
-      let b := b0.toNat
-      if b = 0x7f ∨ b = 0x5f ∨ b = 0x9f ∨ b = 0xbf then .error .indefinite
-      else if b / 32 = 3 then do
-        let (n, r) ← readLen strict (b % 32) rest
-        if n > 33554432 then .error .oversized else
-        let (payload, r') ← take? n r
-        pure (payload, { s with rest := r' })
-      else .error .badKey
 
 /-- `DecodeOptions.Decode` into a generic (basicnode Any) assembler. -/
 def decode (cfg : DecCfg) (bs : Bytes) : R DM := do
